@@ -110,8 +110,12 @@ def _replay(args):
                     if not randomised:
                         _randomise(w, rs, "indep" if kind == "indep" else "list" if kind == "list" else "corr")
                         randomised = True
+                        seen = []
                 elif op["name"] == "clear":
                     w.clear_data()
+                elif op["name"] == "train":
+                    w.train()
+                    seen = []          # new hyper-parameters: variances before and after are not comparable
                 elif op["name"] == "predict":
                     N = op["n"]
                     Xs = Xt[:N]
